@@ -9,7 +9,8 @@ NilV   == [nil |-> TRUE, r |-> 0, ids |-> <<>>]
 Ids(q) == [nil |-> FALSE, r |-> 0, ids |-> q]
 
 R1(id, o, m) == [type |-> "t1", id |-> id, vals |-> [a |-> V(1), n |-> NilV, o |-> Ids(o), m |-> Ids(m), o2 |-> Ids(<<>>), m2 |-> Ids(<<"w">>)]]
-R2(id, p)    == [type |-> "t2", id |-> id, vals |-> [b |-> V(2), p |-> Ids(p)]]
+R2(id, p)    == [type |-> "t2", id |-> id,
+                 vals |-> [f \in {"b", "p"} \cup T2Extra |-> IF f = "p" THEN Ids(p) ELSE IF f = "b" THEN V(2) ELSE V(1)]]
 Pool == { R1("x", <<>>, <<>>), R1("y", <<"u">>, <<"v", "u">>), R2("u", <<"x">>), R2("x", <<>>) }
 
 FieldSels == { <<>>, <<"a">>, <<"a", "o">>, <<"n", "m", "o", "a", "m2", "o2">>, <<"id", "zz", "a">>, <<"m", "m", "m2">> }
@@ -24,7 +25,7 @@ Init == \E k \in {"null", "one", "many", "errors"}, f1 \in FieldSels, d1 \in Dat
         /\ (k = "one" => Len(p) = 1) /\ (k \in {"null", "errors"} => p = <<>>)
         /\ NoDup([i \in 1..Len(p) |-> KeyOf(p[i])])
         /\ doc = [kind |-> k, primary |-> p, included |-> <<>>, nerrors |-> IF k = "errors" THEN 1 ELSE 0,
-                  fields |-> IF miss THEN [t1 |-> f1] ELSE [t1 |-> f1, t2 |-> <<"b", "p">>],
+                  fields |-> IF miss THEN [t1 |-> f1] ELSE [t1 |-> f1, t2 |-> <<"c7", "b", "p", "c1">>],
                   reldata |-> [t1 |-> d1, t2 |-> <<"p">>]]
         /\ st = [primary |-> [i \in 1..Len(p) |-> KeyOf(p[i])], included |-> <<>>]
         /\ steps = 0
